@@ -237,20 +237,17 @@ def guards(repo, res):
         ok = ok and resc and body.index(og[0]) < resc[0]
     res.check(ok, "offset-without-delta", fn.where(og[0]) if og else fn.where(), "combining two different scales where the right one has an offset is refused unless the left is a delta unit", rid=r4)
     # multiply/divide guard
-    mg = None
-    for st in a.binary:
-        if isinstance(st, ast.If) and norm(st.test) == "unit_operator in (_multiply_units, _divide_units)":
-            mg = st
     ok = False
     where = fn.where()
-    if mg is not None:
-        inner = [s for s in ast.walk(mg) if isinstance(s, ast.If) and "base_offset" in norm(s.test) and "temperature" in norm(s.test)]
-        ok = len(inner) == 1 and len(inner[0].body) == 1 and is_raise_of(inner[0].body[0], "InvalidUnitOperation")
-        if ok:
-            t = norm(inner[0].test)
-            ok = "u0.base_offset" in t and "u1.base_offset" in t
-            where = fn.where(inner[0])
-    res.check(ok, "multiply-divide-offset", where, "multiplying / dividing an offset temperature must be refused in __array_ufunc__", rid=r4)
+    for st in a.binary:
+        if isinstance(st, ast.If) and norm(st.test) == "unit_operator in (_multiply_units, _divide_units)":
+            inner = [s for s in ast.walk(st) if isinstance(s, ast.If) and "base_offset" in norm(s.test) and "temperature" in norm(s.test)]
+            if len(inner) == 1 and len(inner[0].body) == 1 and is_raise_of(inner[0].body[0], "InvalidUnitOperation"):
+                t = norm(inner[0].test)
+                if "u0.base_offset" in t and "u1.base_offset" in t and "u0.dimensions is temperature" in t and "u1.dimensions is temperature" in t:
+                    ok = True
+                    where = fn.where(inner[0])
+    res.check(ok, "multiply-divide-offset", where, "multiplying / dividing an offset temperature (either operand) must be refused in __array_ufunc__", rid=r4)
     # diff_helper
     af = repo.mod(AF)
     d = af.func("diff_helper")
@@ -281,6 +278,7 @@ MUTANTS = [
     Mutant("difference-returns-other", ARR, "_difference_units", "        if s1 in s2 and s2.startswith(\"delta_\"):\n            return 1, unit1", "        if s1 in s2 and s2.startswith(\"delta_\"):\n            return 1, unit2", ("C08-R3",)),
     Mutant("KR-guard-dropped", ARR, "unyt_array.__array_ufunc__", '                and str(u0.expr) in ["K", "R"]\n            ):\n                raise UnitOperationError(ufunc, u0, u1)', '                and str(u0.expr) in ["K", "R"]\n            ):\n                pass', ("C08-R4",)),
     Mutant("delta-guard-inverted", ARR, "unyt_array.__array_ufunc__", 'and not repr(u0).startswith("delta_")', 'and repr(u0).startswith("delta_")', ("C08-R4",)),
+    Mutant("muldiv-guard-one-sided", ARR, "unyt_array.__array_ufunc__", "                    or u1.base_offset\n                    and u1.dimensions is temperature\n", "", ("C08-R4",)),
     Mutant("diff-offset-allowed", AF, "diff_helper", "        if u.base_offset:", "        if False:", ("C08-R4",)),
     Mutant("twin-row-spelling", LUT, None, '("degC", (1.0, dimensions.temperature, -273.15,', '("degC", (1.0, dimensions.temperature, -2.7315e2,', (), benign=True),
 ]
